@@ -32,7 +32,7 @@ CHECK = {'level': 'exploration',
          'after >= 4 s and >= 400 heartbeats without any event) show the same goroutines of the case\'s cluster waiting for a mutex inside pkg/p2p below a MessageProtocol '
          'method, or an outstanding requester parked in the select of sendRequestMessage; or, with nothing recognisable parked, when calls are outstanding and no event '
          'happened for 30 s (10 s after the first such hit) while the process ran for >= 2000 heartbeats (callers\' stacks reported). '
-         'Separate generated class "broadcast" (TestBroadcast, 40 cases quick / 150 per thorough shard / 50 per race shard; directed forms TestRegressBroadcast in every tier): the second entry point of the layer '
+         'Separate generated class "broadcast" (TestBroadcast, 32 cases quick / 150 per thorough shard / 50 per race shard; directed forms TestRegressBroadcast in every tier): the second entry point of the layer '
          'that issues requests for a caller, Connection.Broadcast = MessageProtocol.Broadcast (one request with the full timeout and retry budget to every connected peer, first error returned; the only other public '
          'entry point is RequestFrom - Publish is gossip, ApplyPenalty/BanPeer do not go through request()). Private star-shaped cluster per case: a hub connected to 1-6 peers (not connected among themselves), timeout 20-60 ms; '
          'each peer has a generated character towards Broadcast requests: answers in time / after the timeout in its first 1-3 attempts and in time afterwards / after the timeout in every attempt / never while the call runs '
@@ -79,6 +79,6 @@ CHECK = {'level': 'exploration',
                  'executed the call; an engine that starts them from a helper with another name is still covered by the caller-side rule (caller parked in Broadcast, nothing inside request()) and by the 30 s no-progress rule',
                  'broadcast class: peers that can only fail are silent / late in every attempt / stopping; a stopping peer fails only from the moment it has stopped, so failing-peers=N is the planned number, not an observed one; '
                  'the black-hole peers of the stalled-peer class cannot be Broadcast targets (Broadcast addresses connected peers only), the silent peers here are connected hosts whose handler does not return'],
- 'quick': [{'pkg': 'c17', 'checks': 60, 'timeout': 1800, 'shrinktime': '6s', 'env': {'VERIF_C17_STORM': 40, 'VERIF_C17_BCAST': 40}}],
+ 'quick': [{'pkg': 'c17', 'checks': 60, 'timeout': 1800, 'shrinktime': '6s', 'env': {'VERIF_C17_STORM': 40, 'VERIF_C17_BCAST': 32}}],
  'thorough': [{'pkg': 'c17', 'checks': 800, 'shards': 12, 'timeout': 2400, 'gomaxprocs': 4, 'shrinktime': '6s', 'env': {'VERIF_C17_STORM': 200, 'VERIF_C17_BCAST': 150}},
               {'pkg': 'c17', 'race': True, 'checks': 200, 'shards': 4, 'timeout': 2400, 'gomaxprocs': 4, 'shrinktime': '6s', 'env': {'VERIF_C17_STORM': 60, 'VERIF_C17_BCAST': 50}}]}
